@@ -134,6 +134,7 @@ func connIndex(name string) string {
 // that were dialled but not yet accepted are reset (their server end is closed, the client reads
 // EOF). Event lis.close is logged after the effect. A second Close returns net.ErrClosed.
 func (l *Listener) Close() error {
+	l.point("close.enter") // interposition point BEFORE the effect: a plan can make Close slow
 	l.mu.Lock()
 	was := l.closed
 	l.closed = true
